@@ -24,6 +24,8 @@ structure DTables where
   P : Array Float := #[]
   F : Array Float := #[]
   E : Array Float := #[]
+  /-- the namespace of the parameters (`setNamespace`): derivative variables are full parameter names -/
+  pre : String := ""
 deriving Inhabited
 
 def DTables.T (t : DTables) : Nat := if t.n == 0 then 0 else t.E.size / t.n
@@ -37,8 +39,8 @@ def DTables.model (t : DTables) : Tables Float :=
     e0 := fun j => E[j]!
     es := (List.range (t.T - 1)).map (fun s => fun j => E[(s + 1) * n + j]!)
     -- the harness' emission object: derivative with respect to e<s>_<j> is the indicator of that entry
-    dE := fun var => (fun j => if var == ename 0 j then 1.0 else 0.0,
-                      (List.range (t.T - 1)).map (fun s => fun j => if var == ename (s + 1) j then 1.0 else 0.0))
+    dE := fun var => (fun j => if var == t.pre ++ ename 0 j then 1.0 else 0.0,
+                      (List.range (t.T - 1)).map (fun s => fun j => if var == t.pre ++ ename (s + 1) j then 1.0 else 0.0))
     d2E := fun _ => (fun _ => 0.0, (List.range (t.T - 1)).map (fun _ => fun _ => 0.0)) }
 
 /-! exact copies of the tables -/
@@ -58,6 +60,12 @@ def DTables.finite (t : DTables) : Bool :=
 def DTables.nonneg (t : DTables) : Bool :=
   t.finite && (t.P.all (· ≥ 0)) && (t.F.all (· ≥ 0)) && (t.E.all (· ≥ 0))
 
+/-- a built-in transition model: `Hmm.AutoTM` / `Hmm.FullTM` (rows = C19's simplices, equilibrium
+vector = row 0 of P^256 by C04's `pow`) -/
+inductive TM where
+  | auto (m : AutoTM Float)
+  | full (m : FullTM Float)
+
 inductive Core where
   | resc (o : RescObj Float)
   | low (o : LowObj Float)
@@ -70,17 +78,13 @@ structure Obj where
   /-- an update raised since the last successful recomputation: the object is outside the
   hypotheses of `history_independent` -/
   stale : Bool := false
+  /-- the transition matrix is (a copy of) a built-in model: `tab.P`, `tab.F` are what it answers -/
+  tm : Option TM := none
 
 def Obj.bps (o : Obj) : List Nat :=
   match o.core with | .resc r => r.bps | .low l => l.bps | .log g => g.bps
 def Obj.logLik (o : Obj) : Float :=
   match o.core with | .resc r => r.fw.logLik | .low l => l.logLik | .log g => g.fw.ll
-
-/-- a built-in transition model: `Hmm.AutoTM` / `Hmm.FullTM` (rows = C19's simplices, equilibrium
-vector = row 0 of P^256 by C04's `pow`) -/
-inductive TM where
-  | auto (m : AutoTM Float)
-  | full (m : FullTM Float)
 
 structure St where
   stage : DTables := {}
@@ -382,6 +386,8 @@ def derivVerdict (o : Obj) (impl : List String) (var : String) (order : Nat) : S
       -- (not modelled, judged on the implementation only) divide by every emission probability
       let applicable := match o.core with | .resc _ => stationary t | .log _ => t.positive | .low _ => false
       if o.stale || !t.nonneg || !applicable || !validBreaks t.T o.bps || !rangeOk t o.bps then "-" else
+      if !var.startsWith t.pre then "-" else
+      let var := (var.drop t.pre.length).toString
       if !var.startsWith "e" then "-" else
       match parse2 (var.drop 1).toString with
       | none => "-"
@@ -412,6 +418,8 @@ def derivSiteVerdict (o : Obj) (impl : List String) (site : Nat) (second : Bool)
       if second && var != var2 then "-" else
       let applicable := match o.core with | .resc _ => stationary t | .log _ => t.positive | .low _ => false
       if !t.nonneg || !applicable || !validBreaks t.T o.bps || !rangeOkAt 1e-95 t o.bps then "-" else
+      if !var.startsWith t.pre then "-" else
+      let var := (var.drop t.pre.length).toString
       if !var.startsWith "e" then "-" else
       match parse2 (var.drop 1).toString with
       | none => "-"
@@ -501,6 +509,33 @@ def TM.getEq : TM → TM × Option (List Float)
   | .auto m => (.auto m, some m.eq)
   | .full m => let r := m.getEq; (.full r.1, r.2)
 
+/-- `setParameterValue(name, v)` on a built-in transition model: the new model, or the exception -/
+def TM.setParam (tm : TM) (name : String) (v : Float) : Except String TM :=
+  match tm with
+  | .auto m =>
+    match parseLambda name with
+    | none => .error "exc:notfound"
+    | some i =>
+      if i ≥ m.n then .error "exc:notfound" else
+      let old := m.lam.getD i 0.0
+      -- Parameter::setValue: nothing happens unless |v - old| > 0; then the constraint ]0,1[ is checked
+      if !(Float.abs (v - old) > 0) then .ok (.auto (m.setLambda i old))
+      else if !(v > 0.0 && v < 1.0) then .error "exc:constraint"
+      else .ok (.auto (m.setLambda i v))
+  | .full m =>
+    match parseTheta name with
+    | none => .error "exc:notfound"
+    | some (i, j) =>
+      let r := m.setTheta i j v
+      match r.2 with
+      | none => .ok (.full r.1)
+      | some e => .error e.show
+
+/-- the parameter names of a built-in model, in the order of its parameter list -/
+def TM.names : TM → List String
+  | .auto m => (List.range m.n).map (fun i => s!"lambda{i + 1}")
+  | .full m => (List.range m.n).flatMap (fun i => (List.range (m.n - 1)).map (fun k => s!"{i + 1}.theta{k + 1}"))
+
 def showOpt (x : Option (List Float)) : String := match x with | some l => hxs l | none => "ub"
 
 /-- verdict on a matrix returned by `getPij()` -/
@@ -553,23 +588,9 @@ def tmStep (s : St) (op : List String) (impl : Option (List String)) : St × Str
         match Hex.float? v with
         | none => (s, "bad-op", "-")
         | some v =>
-          match tm with
-          | .auto m =>
-            match parseLambda name with
-            | none => (s, "exc:notfound", "-")
-            | some i =>
-              if i ≥ m.n then (s, "exc:notfound", "-") else
-              let old := m.lam.getD i 0.0
-              -- Parameter::setValue: nothing happens unless |v - old| > 0; then the constraint ]0,1[ is checked
-              if !(Float.abs (v - old) > 0) then (s.putTM k (.auto (m.setLambda i old)), "ok", "-")
-              else if !(v > 0.0 && v < 1.0) then (s, "exc:constraint", "-")
-              else (s.putTM k (.auto (m.setLambda i v)), "ok", "-")
-          | .full m =>
-            match parseTheta name with
-            | none => (s, "exc:notfound", "-")
-            | some (i, j) =>
-              let r := m.setTheta i j v
-              (s.putTM k (.full r.1), match r.2 with | none => "ok" | some e => e.show, "-")
+          match tm.setParam name v with
+          | .ok tm' => (s.putTM k tm', "ok", "-")
+          | .error e => (s, e, "-")
       | "tmsetP", r =>
         match floats? r, tm with
         | some a, .full m =>
@@ -633,22 +654,49 @@ def tmStep (s : St) (op : List String) (impl : Option (List String)) : St × Str
 def upd (old v : Float) : Float := if Float.abs (v - old) > 0 then v else old
 
 
-/-- `some tables'` when the name is a parameter of the object -/
-def setParam (o : Obj) (t : DTables) (name : String) (v : Float) : Option DTables :=
+/-- the tables a likelihood object sees when its transition matrix is the built-in model `tm` -/
+def tablesOfTM (t : DTables) (tm : TM) : DTables :=
+  { t with P := tm.spec.pij.flatten.toArray, F := (tm.spec.eq.getD []).toArray }
+
+inductive SetRes where
+  | notfound
+  | exc (e : String)
+  | ok (t : DTables) (tm : Option TM)
+
+/-- `setParameterValue(name, v)` (name without the namespace) on a likelihood object -/
+def setParam (o : Obj) (t : DTables) (tm : Option TM) (name : String) (v : Float) : SetRes :=
   let body := (name.drop 1).toString
-  if name.startsWith "p" then
+  if name.startsWith "e" then
+    if !o.withParams then .notfound else
     match parse2 body with
-    | some (i, j) => if i < t.n && j < t.n && body == s!"{i}_{j}" then some { t with P := t.P.modify (i * t.n + j) (upd · v) } else none
-    | none => none
-  else if name.startsWith "f" then
-    match body.toNat? with
-    | some k => if k < t.n && body == s!"{k}" then some { t with F := t.F.modify k (upd · v) } else none
-    | none => none
-  else if name.startsWith "e" && o.withParams then
-    match parse2 body with
-    | some (s, j) => if s < t.T && j < t.n && body == s!"{s}_{j}" then some { t with E := t.E.modify (s * t.n + j) (upd · v) } else none
-    | none => none
-  else none
+    | some (s, j) => if s < t.T && j < t.n && body == s!"{s}_{j}" then .ok { t with E := t.E.modify (s * t.n + j) (upd · v) } tm else .notfound
+    | none => .notfound
+  else
+  match tm with
+  | some m =>
+    match m.setParam name v with
+    | .ok m' => .ok (tablesOfTM t m') (some m')
+    | .error "exc:notfound" => .notfound
+    | .error e => .exc e
+  | none =>
+    if name.startsWith "p" then
+      match parse2 body with
+      | some (i, j) => if i < t.n && j < t.n && body == s!"{i}_{j}" then .ok { t with P := t.P.modify (i * t.n + j) (upd · v) } tm else .notfound
+      | none => .notfound
+    else if name.startsWith "f" then
+      match body.toNat? with
+      | some k => if k < t.n && body == s!"{k}" then .ok { t with F := t.F.modify k (upd · v) } tm else .notfound
+      | none => .notfound
+    else .notfound
+
+/-- the parameter names of a likelihood object (alphabet: none; transition matrix; emissions), with the namespace -/
+def Obj.names (o : Obj) : List String :=
+  let t := o.tab
+  let tr := match o.tm with
+    | some m => m.names
+    | none => (List.range t.n).flatMap (fun i => (List.range t.n).map (fun j => s!"p{i}_{j}")) ++ (List.range t.n).map (fun k => s!"f{k}")
+  let em := if o.withParams then (List.range t.T).flatMap (fun s => (List.range t.n).map (fun j => ename s j)) else []
+  (tr ++ em).map (t.pre ++ ·)
 
 def parsePairs : List String → Option (List (String × Float))
   | [] => some []
@@ -663,8 +711,9 @@ def runOp (o : Obj) (op : Op Float) : Obj × Ans Float :=
   | .log g => let (g', a) := g.step op; ({ o with core := .log g' }, a)
 
 /-- an update (new tables or new break points) -/
-def update (s : St) (k : String) (o : Obj) (t : DTables) (op : Op Float) (impl : Option (List String)) : St × String × String :=
-  let (o1, a) := runOp { o with tab := t } op
+def update (s : St) (k : String) (o : Obj) (t : DTables) (op : Op Float) (impl : Option (List String))
+    (tm : Option TM := o.tm) : St × String × String :=
+  let (o1, a) := runOp { o with tab := t, tm := tm } op
   match a with
   | .exc => (s.put k { o1 with stale := true }, showAns a, "-")
   | _ => let o2 := { o1 with stale := false }; (s.put k o2, showAns a, llVerdict o2 impl)
@@ -709,6 +758,25 @@ def step (s : St) (op : List String) (impl : Option (List String)) : St × Strin
       | some c =>
         let o : Obj := { core := c, withParams := wp == "1", tab := t }
         (s.put k o, hx o.logLik, llVerdict o impl)
+  | "buildtm" :: k :: algo :: wp :: tmk :: r =>
+    match s.getTM? tmk with
+    | none => (s, "no-object", "-")
+    | some tm =>
+      let t0 := s.stage
+      if t0.n != tm.n || t0.E.isEmpty || t0.E.size % t0.n != 0 then (s, "bad-stage", "-") else
+      let t := tablesOfTM { t0 with pre := "" } tm
+      let chunk := match r with | [c] => (nat? c).getD 0 | _ => 0
+      let core : Option Core := match algo with
+        | "resc" => (RescObj.build t.model).map Core.resc
+        | "low" => (LowObj.build t.model chunk).map Core.low
+        | "log" => some (Core.log (LogObj.build t.model))
+        | _ => none
+      if algo != "resc" && algo != "low" && algo != "log" then (s, "bad-op", "-") else
+      match core with
+      | none => (s.del k, "exc:bpp", "-")
+      | some c =>
+        let o : Obj := { core := c, withParams := wp == "1", tab := t, tm := some tm }
+        (s.put k o, hx o.logLik, llVerdict o impl)
   | ["clone", a, b] =>
     match s.get? a with
     | none => (s, "no-object", "-")
@@ -744,16 +812,26 @@ def step (s : St) (op : List String) (impl : Option (List String)) : St × Strin
         match Hex.float? v with
         | none => (s, "bad-op", "-")
         | some v =>
-          match setParam o o.tab name v with
-          | none => (s, "exc:notfound", "-")
-          | some t => update s k o t (.setTables t.model) impl
+          match setParam o o.tab o.tm name v with
+          | .notfound => (s, "exc:notfound", "-")
+          | .exc e => (s, e, "-")
+          | .ok t tm => update s k o t (.setTables t.model) impl tm
       | "setps", r =>
         match parsePairs r with
         | none => (s, "bad-op", "-")
         | some prs =>
-          -- unknown names are ignored by setParametersValues / matchParametersValues
-          let t := prs.foldl (fun t (nv : String × Float) => ((setParam o t nv.1 nv.2).getD t)) o.tab
-          update s k o t (.setTables t.model) impl
+          -- full names; unknown names are ignored by setParametersValues / matchParametersValues
+          let (t, tm) := prs.foldl (fun (acc : DTables × Option TM) (nv : String × Float) =>
+            if !nv.1.startsWith acc.1.pre then acc else
+            match setParam o acc.1 acc.2 (nv.1.drop acc.1.pre.length).toString nv.2 with
+            | .ok t tm => (t, tm)
+            | _ => acc) (o.tab, o.tm)
+          update s k o t (.setTables t.model) impl tm
+      | "ns", pre =>
+        -- setNamespace: the parameter (and derivative variable) names change, the cached derivative names are forgotten
+        let t := { o.tab with pre := pre.headD "" }
+        update s k o t (.setTables t.model) impl
+      | "names", [] => (s, (let l := o.names; if l.isEmpty then "-" else " ".intercalate l), "-")
       | "post", [] =>
         let (o1, a) := runOp o .posterior
         (s.put k o1, showAns a, both (postVerdict o impl none) (match impl with | some i => if isExc i then "-" else histCheck o i (specOf o .posterior) | none => "-"))
